@@ -2,7 +2,7 @@
    RFC requires, and the strict attribute-list parser reads a rendered attribute list. *)
 From Coq Require Import List ZArith Bool String Ascii Lia.
 From GoHls Require Import Model.PlaylistBase Model.Playlist Model.PlaylistSpec Model.PlaylistStrict
-  Proofs.PlaylistStr Proofs.PlaylistNum Proofs.PlaylistAttrs.
+  Proofs.PlaylistStr Proofs.PlaylistNum Proofs.PlaylistAttrs Proofs.PlaylistTags.
 Import ListNotations.
 Local Open Scope string_scope.
 Local Open Scope Z_scope.
@@ -389,4 +389,106 @@ Proof.
   pose proof (parse_attr_items_render l (S (slen (render_attrs l))) [] Hne Hok (Nat.lt_succ_diag_r _)) as P.
   destruct l as [|x l]; [congruence|].
   destruct (render_attrs (x :: l)) eqn:E; [exfalso; eapply render_attrs_nonempty; eauto|exact P].
+Qed.
+
+(* ---------- whatever the strict attribute-list parser accepts is free of CR and LF ---------- *)
+Lemma span_spec (p : ascii -> bool) s a b :
+  span p s = (a, b) -> s = a ++ b /\ (forall x, mem_char x a = true -> p x = true).
+Proof.
+  revert a b; induction s as [|c s IH]; intros a b H; simpl in H.
+  - inversion H; subst. split; [reflexivity|discriminate].
+  - destruct (p c) eqn:Ec.
+    + destruct (span p s) as [a' b'] eqn:E. inversion H; subst. destruct (IH _ _ eq_refl) as [-> Hall].
+      split; [reflexivity|]. intros x Hx. simpl in Hx. apply orb_true_iff in Hx as [Hx|Hx]; auto.
+      apply Ascii.eqb_eq in Hx. now subst.
+    + inversion H; subst. split; [reflexivity|discriminate].
+Qed.
+
+Lemma no_crlf_of_pred (p : ascii -> bool) a :
+  p CR = false -> p LF = false -> (forall x, mem_char x a = true -> p x = true) -> no_crlf a = true.
+Proof.
+  intros Hc Hl Hall. unfold no_crlf. induction a as [|x a IH]; [reflexivity|].
+  assert (Hx : p x = true) by (apply Hall; simpl; now rewrite Ascii.eqb_refl).
+  assert (IH' : no_byte LF a && no_byte CR a = true)
+    by (apply IH; intros y Hy; apply Hall; simpl; now rewrite Hy, orb_true_r).
+  apply andb_true_iff in IH' as [A B]. cbn [no_byte]. rewrite A, B.
+  destruct (Ascii.eqb_spec x LF); [subst; congruence|]. destruct (Ascii.eqb_spec x CR); [subst; congruence|].
+  reflexivity.
+Qed.
+
+Lemma has_char_false_no_crlf s :
+  has_char (fun x => Ascii.eqb x CR || Ascii.eqb x LF) s = false -> no_crlf s = true.
+Proof.
+  unfold no_crlf. induction s as [|a s IH]; [reflexivity|]. cbn [has_char no_byte]. intros H.
+  apply orb_false_iff in H as [Ha Hs]. apply orb_false_iff in Ha as [A B].
+  specialize (IH Hs). apply andb_true_iff in IH as [C D]. now rewrite A, B, C, D.
+Qed.
+
+Lemma has_char_ws_no_crlf s : has_char (fun x => Ascii.eqb x DQ || is_ws x) s = false -> no_crlf s = true.
+Proof.
+  intros H. apply has_char_false_no_crlf. induction s as [|a s IH]; [reflexivity|].
+  cbn [has_char] in *. apply orb_false_iff in H as [Ha Hs]. apply orb_false_iff in Ha as [_ Ha].
+  rewrite (IH Hs), orb_false_r.
+  destruct (Ascii.eqb_spec a CR); [subst; discriminate Ha|]. destruct (Ascii.eqb_spec a LF); [subst; discriminate Ha|].
+  reflexivity.
+Qed.
+
+Lemma match_eq_char {A} (r : string) (X : string -> option A) l :
+  match r with String "="%char v => X v | _ => None end = Some l -> exists v, r = String "=" v /\ X v = Some l.
+Proof.
+  destruct r as [|c v]; [discriminate|].
+  destruct c as [[|] [|] [|] [|] [|] [|] [|] [|]]; simpl; try discriminate. eauto.
+Qed.
+
+Lemma match_comma_char {A} (r : string) (X : string -> option A) (Y : option A) l :
+  match r with "" => Y | String ","%char v => X v | _ => None end = Some l ->
+  (r = "" /\ Y = Some l) \/ exists v, r = String "," v /\ X v = Some l.
+Proof.
+  destruct r as [|c v]; [auto|].
+  destruct c as [[|] [|] [|] [|] [|] [|] [|] [|]]; simpl; try discriminate. eauto.
+Qed.
+
+Lemma parse_attr_items_no_crlf f : forall s acc l, parse_attr_items f s acc = Some l -> no_crlf s = true.
+Proof.
+  induction f as [|f IH]; intros s acc l H; [discriminate|].
+  rewrite parse_attr_items_S in H.
+  destruct (span (fun c => mem_char c name_chars) s) as [name r] eqn:Es.
+  destruct (span_spec _ _ _ _ Es) as [-> Hname].
+  assert (Hn : no_crlf name = true) by (apply (no_crlf_of_pred _ _ eq_refl eq_refl Hname)).
+  rewrite no_crlf_app, Hn. cbn [andb].
+  apply match_eq_char in H as (v & -> & H).
+  rewrite no_crlf_string. change (Ascii.eqb "=" LF) with false. change (Ascii.eqb "=" CR) with false. cbn [negb andb].
+  destruct (String.eqb name ""); [discriminate|].
+  destruct v as [|c v']; [discriminate|].
+  destruct (Ascii.eqb_spec c DQ).
+  - subst c. destruct (index_byte DQ v') as [j|] eqn:Ej; [|discriminate].
+    cbv zeta in H.
+    destruct (has_char (fun x => Ascii.eqb x CR || Ascii.eqb x LF) (take j v')) eqn:Ec; [discriminate|].
+    rewrite no_crlf_string. change (Ascii.eqb DQ LF) with false. change (Ascii.eqb DQ CR) with false. cbn [negb andb].
+    rewrite (index_byte_split _ _ _ Ej), no_crlf_app, (has_char_false_no_crlf _ Ec), no_crlf_string.
+    change (Ascii.eqb DQ LF) with false. change (Ascii.eqb DQ CR) with false. cbn [negb andb].
+    apply match_comma_char in H as [[-> _]|(rest' & -> & H)]; [reflexivity|].
+    destruct (String.eqb rest' ""); [discriminate|].
+    rewrite no_crlf_string. change (Ascii.eqb "," LF) with false. change (Ascii.eqb "," CR) with false. cbn [negb andb].
+    eapply IH; eauto.
+  - destruct (span (fun x => negb (Ascii.eqb x ",")) (String c v')) as [val rest] eqn:Ev.
+    destruct (span_spec _ _ _ _ Ev) as [Eq _]. rewrite Eq.
+    destruct (has_char (fun x => Ascii.eqb x DQ || is_ws x) val) eqn:Eb; [discriminate|].
+    destruct (String.eqb val ""); [discriminate|].
+    rewrite no_crlf_app, (has_char_ws_no_crlf _ Eb). cbn [andb].
+    destruct rest as [|c1 rest']; [reflexivity|].
+    destruct (String.eqb rest' ""); [discriminate|].
+    assert (Hc1 : c1 = ","%char).
+    { clear - Ev. revert val Ev. generalize (String c v'). intros s. induction s as [|a s IHs]; intros val Ev; simpl in Ev.
+      - discriminate.
+      - destruct (negb (Ascii.eqb a ",")) eqn:Ea.
+        + destruct (span (fun x => negb (Ascii.eqb x ",")) s) as [a' b'] eqn:E. inversion Ev; subst. eapply IHs; eauto.
+        + inversion Ev; subst. apply negb_false_iff, Ascii.eqb_eq in Ea. auto. }
+    subst c1. rewrite no_crlf_string. change (Ascii.eqb "," LF) with false. change (Ascii.eqb "," CR) with false.
+    cbn [negb andb]. eapply IH; eauto.
+Qed.
+
+Lemma parse_attr_list_no_crlf s l : parse_attr_list s = Some l -> no_crlf s = true.
+Proof.
+  unfold parse_attr_list. destruct s; [discriminate|]. apply parse_attr_items_no_crlf.
 Qed.
